@@ -5,9 +5,13 @@
 //
 // What is generated stays inside the quantifier of C13: types over package trees 1-5 deep,
 // implements / extends / field / call relations to project types, to non-project types and to the type
-// itself, an entry class `Main`, methods named `main`. Deliberately NOT generated (the statement leaves
-// them open): types in the default package, a type whose full name equals (a prefix of) another type's
-// package, two types with the same full name, an identifier map that differs from the set of types.
+// itself, an entry class `Main`, methods named `main`. Types of the default package (Pkg == "") are generated
+// (when Opts.MinPkgDepth < 2): the node / edge / quotient clauses apply to them; only how they are DRAWN is
+// left open and judged by nobody. Names include underscores and non-ASCII letters, arranged so that different
+// full names become equal when every character outside [A-Za-z0-9_] (or every dot) is replaced by '_'.
+// Deliberately NOT generated (the statement leaves them open): a type whose full name equals (a prefix of)
+// another type's package, two types with the same full name, an identifier map that differs from the set of
+// types, a default-package type named like one of the bare unresolved names.
 package archgen
 
 import (
@@ -57,6 +61,9 @@ type Model struct {
 	Mode  string
 	// Planted key collision (informational): the two package pairs whose concatenations are equal.
 	Collision [][2]string
+	// Twins (informational): planted pairs of full names that are equal after replacing every character
+	// outside [A-Za-z0-9_] by '_'.
+	Twins [][2]string
 }
 
 // Opts bounds a model.
@@ -70,6 +77,14 @@ var wordSegs = []string{"com", "org", "acme", "core", "web", "api", "svc", "util
 var typeWords = []string{"Order", "User", "Cart", "Repo", "Service", "Ctl", "Mapper", "Util", "Gate", "Pay", "Stock", "Mail", "A", "B", "Ab", "Cd",
 	// perfectly ordinary class names that happen to be DOT keywords (case-insensitively)
 	"Node", "Edge", "Graph", "Digraph", "Subgraph", "Strict"}
+
+// underscores and non-ASCII letters (legal Java identifiers); the arranged pairs are planted in Generate (Model.Twins)
+var exoticSegs = []string{"db_v2", "b_c", "c_d", "b_c_d", "io_", "büro", "bäro", "données", "größe", "倉庫"}
+var exoticTypes = []string{"Db_Conn", "Order_V2", "v2_Conn", "_Tmp", "Conn_", "Größe", "Grüße", "Café", "Cafè", "Ärger", "Örger", "订单", "用户", "注文", "顧客"}
+var twinWords = []string{"db", "v2", "io", "x1", "b", "c"}
+var nonASCIITwinTypes = [][2]string{{"Größe", "Grüße"}, {"Café", "Cafè"}, {"订单", "用户"}, {"注文", "顧客"}, {"Ärger", "Örger"}, {"Niño", "Niñó"}}
+var nonASCIITwinSegs = [][2]string{{"büro", "bäro"}, {"données", "donnèes"}, {"倉庫", "在庫"}}
+
 var mainDecoys = []string{"MainView", "Maintenance", "MainImpl", "Main2", "DoMain"}
 var methodWords = []string{"run", "save", "load", "find", "apply", "check", "send", "build", "init", "close"}
 var mainMethodDecoys = []string{"mainLoop", "Main", "domain", "main2"}
@@ -107,6 +122,10 @@ func Generate(r *run.Rand, o Opts) *Model {
 		alphabet = wordSegs
 	case 1:
 		alphabet = append(append([]string{}, collideSegs...), wordSegs...)
+	}
+	exotic := r.Chance(1, 4)
+	if exotic {
+		alphabet = append(append([]string{}, alphabet...), exoticSegs...)
 	}
 
 	// ---- packages
@@ -171,8 +190,47 @@ func Generate(r *run.Rand, o Opts) *Model {
 		}
 	}
 
+	// planted twins: two full names that differ only in characters outside [A-Za-z0-9] (see Model.Twins)
+	type forced struct{ pkg, name string }
+	var forcedTypes []forced
+	if r.Chance(1, 6) {
+		pre := r.Pick(alphabet)
+		if r.Chance(1, 3) {
+			pre += "." + r.Pick(alphabet)
+		}
+		w1, w2 := r.Pick(twinWords), r.Pick(twinWords)
+		tn := r.Pick(typeWords)
+		var a, b forced
+		switch r.Intn(5) {
+		case 0: // an underscore lined up with a package boundary: pre.db_v2.T / pre.db.v2.T
+			a, b = forced{pre + "." + w1 + "_" + w2, tn}, forced{pre + "." + w1 + "." + w2, tn}
+		case 1: // ... with the boundary between package and type: pre.db_v2.Conn / pre.db.v2_Conn
+			a, b = forced{pre + "." + w1 + "_" + w2, tn}, forced{pre + "." + w1, w2 + "_" + tn}
+		case 2: // same-length non-ASCII type names in one package
+			tw := nonASCIITwinTypes[r.Intn(len(nonASCIITwinTypes))]
+			a, b = forced{pre + "." + w1, tw[0]}, forced{pre + "." + w1, tw[1]}
+		case 3: // same-length non-ASCII package segments
+			tw := nonASCIITwinSegs[r.Intn(len(nonASCIITwinSegs))]
+			a, b = forced{pre + "." + tw[0], tn}, forced{pre + "." + tw[1], tn}
+		default: // underscore inside the type name against a dot-free neighbour: pre.db.V_T / pre.db_V.T is not
+			// conventional; use two underscore placements inside one package path instead: pre.b_c.d / pre.b.c_d
+			a, b = forced{pre + "." + w1 + "_" + w2 + "." + "d", tn}, forced{pre + "." + w1 + "." + w2 + "_d", tn}
+		}
+		addPkg(a.pkg)
+		addPkg(b.pkg)
+		forcedTypes = append(forcedTypes, a, b)
+		m.Twins = append(m.Twins, [2]string{a.pkg + "." + a.name, b.pkg + "." + b.name})
+	}
+	// the default package
+	if o.MinPkgDepth < 2 && r.Chance(1, 5) {
+		pos := r.Intn(len(pkgs) + 1)
+		pkgs = append(pkgs, "")
+		copy(pkgs[pos+1:], pkgs[pos:])
+		pkgs[pos] = ""
+	}
+
 	// ---- types
-	nT := r.Range(1, o.MaxTypes)
+	nT := r.Range(1, o.MaxTypes-len(forcedTypes))
 	if r.Chance(1, 2) && nT > 10 {
 		nT = r.Range(2, 10)
 	}
@@ -198,8 +256,19 @@ func Generate(r *run.Rand, o Opts) *Model {
 		name := r.Pick(typeWords)
 		if r.Chance(1, 12) {
 			name = r.Pick(mainDecoys)
+		} else if exotic && r.Chance(1, 3) {
+			name = r.Pick(exoticTypes)
 		}
 		newType(pkg, name)
+	}
+	for _, f := range forcedTypes {
+		if !used[f.pkg+"."+f.name] {
+			t := newType(f.pkg, f.name)
+			// somewhere in the middle
+			pos := r.Intn(len(m.Types))
+			copy(m.Types[pos+1:], m.Types[pos:len(m.Types)-1])
+			m.Types[pos] = t
+		}
 	}
 	// the entry class (sometimes two of them, in different packages)
 	if r.Chance(1, 2) {
@@ -220,15 +289,33 @@ func Generate(r *run.Rand, o Opts) *Model {
 	all := m.Types
 	n := len(all)
 	refOf := func(t *Type) Ref { return Ref{Pkg: t.Pkg, Name: t.Name} }
+	var namedPkgs []string
+	for _, p := range pkgs {
+		if p != "" {
+			namedPkgs = append(namedPkgs, p)
+		}
+	}
+	hasDefault := len(namedPkgs) < len(pkgs)
 	external := func() Ref {
-		switch r.Intn(10) {
-		case 0: // a non-project type inside a project package
-			return Ref{Pkg: pkgs[r.Intn(len(pkgs))], Name: "Gen" + r.Pick(externalNames)}
+		k := r.Intn(10)
+		if len(namedPkgs) == 0 && k <= 2 {
+			if k == 0 {
+				// the model only has the default package: a non-project type of that package
+				return Ref{Pkg: "", Name: "Gen" + r.Pick(externalNames)}
+			}
+			k = 9
+		}
+		switch k {
+		case 0: // a non-project type inside a project package (now and then the default package)
+			if hasDefault && r.Chance(1, 5) {
+				return Ref{Pkg: "", Name: "Gen" + r.Pick(externalNames)}
+			}
+			return Ref{Pkg: namedPkgs[r.Intn(len(namedPkgs))], Name: "Gen" + r.Pick(externalNames)}
 		case 1: // a non-project type whose top-level segment is a project one
-			top := strings.Split(pkgs[r.Intn(len(pkgs))], ".")[0]
+			top := strings.Split(namedPkgs[r.Intn(len(namedPkgs))], ".")[0]
 			return Ref{Pkg: top + ".thirdparty", Name: r.Pick(externalNames)}
 		case 2: // a non-project type directly in a top-level project segment
-			top := strings.Split(pkgs[r.Intn(len(pkgs))], ".")[0]
+			top := strings.Split(namedPkgs[r.Intn(len(namedPkgs))], ".")[0]
 			return Ref{Pkg: top, Name: "Gen" + r.Pick(externalNames)}
 		default:
 			return Ref{Pkg: r.Pick(externalPkgs), Name: r.Pick(externalNames)}
@@ -432,6 +519,10 @@ func (m *Model) ShapeKey() string {
 			if q != p && strings.HasPrefix(p, q+".") && (parent < 0 || len(q) > len(pk[parent])) {
 				parent = j
 			}
+		}
+		if p == "" {
+			sb.WriteString("pDEFAULT;")
+			continue
 		}
 		fmt.Fprintf(&sb, "p%d^%d;", len(strings.Split(p, ".")), parent)
 	}
